@@ -11,7 +11,7 @@ from c17 import flush_rule
 from common import Rule, VERIF, finish
 from hirtab import ANY, C, adt_variants, candidates
 from hirutil import find, strip
-from mirutil import Body
+from mirutil import Body, op_local
 from mono import Mono
 
 STREAM = re.compile(r"jaq_core::exn::Exn<|jaq_core::exn::Error<|Result<jaq_json::Val, alloc::string::String>|Result<jaq_json::Val, std::io::error::Error>")
@@ -54,6 +54,80 @@ def forcing_sites(g, roots, removed):
                 sites[((sp or "?").split(":")[0], last)].add((c06.fn_def(N[a]), sp))
     return seen, sites
 
+
+
+def immediate_invokers(facts):
+    """First-party functions that run a closure argument before they return: (1) the function itself calls a nullary
+    closure parameter (a thunk, e.g. `collect_if_once(f)` starts with `f()`), or (2) it takes an `impl Fn*` and returns
+    materialised data (no iterator, trait object or closure type in the result: the closure cannot have been kept,
+    e.g. `Path::map_ref`). A closure passed to one of these is not a deferral."""
+    out = {}
+    for f in facts.hir("jaq_core"):
+        if f.get("test") or "sig" not in f or "->" not in str(f["sig"]):
+            continue
+        ptys = [p_.get("ty") or "" for p_ in f.get("params", [])]
+        ret = str(f["sig"]).rsplit("->", 1)[1]
+        if any(t.startswith("impl Fn") for t in ptys) and not re.search(r"Iterator|dyn |impl |Delay|Box<|Results<|BoxIter", ret):
+            out[f["def"]] = "takes a closure and returns materialised data"
+    for j in facts.mir("jaq_core"):
+        if "{closure" in j["def"] or not j.get("argc"):
+            continue
+        b = Body(j)
+        params = b.derived_from(list(range(1, j["argc"] + 1)))
+        for i, t in b.calls():
+            if re.search(r"^core::ops::function::Fn(Once|Mut)?::call(_once|_mut)?$", t.get("fn") or "") and set(b.arg_locals(i, 0)) & params:
+                a1 = t["args"][1] if len(t["args"]) > 1 else {}
+                unit = (a1.get("k") or {}).get("ty") == "()" or (op_local(a1) is not None and b.locals[op_local(a1)]["ty"] == "()")
+                if unit:
+                    out[j["def"]] = "calls its thunk parameter itself"
+    return out
+
+
+def undeferred_runs(body, immediate, modes=("run", "paths")):
+    """run/paths calls of the evaluator (on any receiver) that are executed when `body` is executed: not inside a
+    closure, or only inside closures handed directly to an immediate invoker. Returns [(receiver local id, node)]."""
+    out = []
+
+    def rec(e, depth):
+        if isinstance(e, list):
+            for x in e:
+                rec(x, depth)
+            return
+        if not isinstance(e, dict):
+            return
+        k = e.get("k")
+        if k == "Closure":
+            rec({kk: v for kk, v in e.items() if kk not in ("k", "sp", "ty", "exp")}, depth + 1)
+            return
+        if k in ("Call", "MethodCall"):
+            c = (e["m"].get("res") or e["m"].get("def") or "") if k == "MethodCall" else ((strip(e["f"]).get("path") or {}).get("def") or "")
+            if k == "MethodCall" and e["m"]["name"] in modes and (e["m"].get("def") or "").startswith("jaq_core::filter::") and depth == 0:
+                r = strip(e["recv"])
+                out.append(((r.get("path") or {}).get("id"), e))
+            transparent = norm(c) in immediate
+            for kk, v in e.items():
+                if kk in ("sp", "ty", "exp", "adj", "adj_ty", "m"):
+                    continue
+                if transparent and kk == "args":
+                    for a in v:
+                        a2 = strip(a)
+                        if isinstance(a2, dict) and a2.get("k") == "Closure":
+                            rec({x: y for x, y in a2.items() if x not in ("k", "sp", "ty", "exp")}, depth)   # runs now: same depth
+                        else:
+                            rec(a, depth)
+                else:
+                    rec(v, depth)
+            return
+        for kk, v in e.items():
+            if kk in ("sp", "ty", "exp", "adj", "adj_ty"):
+                continue
+            rec(v, depth)
+    rec(body, 0)
+    return out
+
+
+def norm(d):
+    return re.sub(r"::<[^<>]*>", "", d or "")
 
 def run(facts, tier):
     t0 = time.time()
@@ -133,6 +207,8 @@ def run(facts, tier):
                    ("run", "Fold"): "xs and init: xs is wrapped in a lazy list, init is the outer stream", ("paths", "Fold"): "same as run",
                    ("run", "TryCatch"): "the handler is built inside the closure; listed because the body is passed by value", ("paths", "TryCatch"): "same"}
     variants = adt_variants(facts, "jaq_core::compile::Term") or []
+    IMMEDIATE = {norm(d) for d in immediate_invokers(facts)}
+    l3.notes.append(f"immediate invokers: {sorted(IMMEDIATE)}")
     for mode in ("run", "paths"):
         f, m = evaluator(facts, mode)
         if m is None:
@@ -152,6 +228,13 @@ def run(facts, tier):
                 l3.examined((mode, name, str(v["args"][1].get("ctor")) if name == "Pipe" else ""), len(calls) > 1, {"mode": mode, "term": name, "eager_operands": eager, "deferred": len([c for c in calls if c[2] > 0])} if name in ("Comma", "Pipe", "Alt") else None)
                 if len(eager) > 1 and (mode, name) not in ALLOWED_TWO:
                     l3.violate(f"{mode}/{name}", f"TermId::{mode}, {name}: operands {eager} are all constructed eagerly; later operands must be built on demand (a `first(f, g)` would start evaluating g)", where=a["sp"])
+                # operands that are not sub-terms of the pattern themselves (the index filters inside a path) but are run
+                # when the arm is run: closures handed to an immediate invoker do not defer anything
+                binds_ = {i_ for ids in pat_binds(a["pat"]).values() for i_ in ids}
+                extra = [n_ for rid_, n_ in undeferred_runs(a["body"], IMMEDIATE) if rid_ is not None and rid_ not in binds_]
+                if extra and eager:
+                    l3.examined((mode, name, "derived-operands"), True, {"mode": mode, "term": name, "eager_operands": eager, "derived_operands_run_at_once": len(extra)})
+                    l3.violate(f"{mode}/{name}/derived", f"TermId::{mode}, {name}: besides operand {eager}, filters nested in another operand (e.g. the index filters of a path) are run as soon as the term is run, through closures handed to functions that call them at once ({', '.join(sorted(x.split('::')[-1] for x in IMMEDIATE if x.split('::')[-1] in str(a['body'])))}): they are evaluated before (and even if never) the first operand yields", where=extra[0]["sp"])
     # the lazy wrapper itself
     lz = facts.hir_fn("jaq_core::filter::lazy")
     if lz is None:
